@@ -239,6 +239,29 @@ pub fn run(a: &Args, out: &mut impl Write) {
         let os: Vec<String> = outs.iter().map(|o| if o.is_empty() { "-".to_string() } else { o.clone() }).collect();
         writeln!(out, "cnt {} {} {} | {} exit={}", n, t, ss.join("/"), os.join("/"), ex).unwrap();
     }
+    // ---- C06: the last calls of the script are made by a destructor that runs while the thread unwinds
+    // (each inside its own catch_unwind, as a careful tear-down does): the budget is the same there
+    for n in 0..=2usize {
+        for extra in [1usize, 2] {
+            let mut inj = InjectorPP::new();
+            inj.when_called(shadow::func!(fn (target)(i32) -> i32)).will_execute(mk(n));
+            let mut outs: String = (0..n).map(|_| one_call(true)).collect();
+            struct CallsOnDrop<'a>(&'a mut String, usize);
+            impl Drop for CallsOnDrop<'_> {
+                fn drop(&mut self) {
+                    for _ in 0..self.1 {
+                        self.0.push(one_call(true));
+                    }
+                }
+            }
+            let _ = quiet_catch(std::panic::AssertUnwindSafe(|| {
+                let _c = CallsOnDrop(&mut outs, extra);
+                panic!("the body panics; its tear-down calls the function");
+            }));
+            let ex = exit_class(quiet_catch(std::panic::AssertUnwindSafe(move || drop(inj))));
+            writeln!(out, "cntunw {} 1 {} | {} exit={}", n, "m".repeat(n + extra), outs, ex).unwrap();
+        }
+    }
     // ---- C06: matching calls that arrive while the installation is still running
     for n in 1..=3usize {
         for total in [n, n + 1] {
